@@ -246,6 +246,83 @@ def gen_history(rng, schema, n_ops):
     return ops, kinds, st
 
 
+def gen_table_history(rng, schema, n_ops):
+    """Hostile use of the public 2.x table API (engine_library): rows and ids that do not exist, ids that are
+    already set, invalid titles, parents and successors that do not exist or belong elsewhere, duplicate entities,
+    followed by every listing."""
+    from . import c18
+    kinds = set()
+    u = {"i": set(), "d": set(), "s": set(), "t": set()}
+    ops = [{"op": "lib_create_temporary", "schema": schema}, {"op": "info_get", "bind": "uuid", "bind_field": "uuid", "bind_hex": True}]
+    ntr, npl = 0, 0
+    ids_t, ids_p = [0, -1, 999999, 2 ** 62], [0, -1, 999999, -2 ** 62]
+    for _ in range(n_ops):
+        r = rng.random()
+        if r < 0.12:
+            row = c18.gen_row(rng, u, 0.3)
+            if rng.random() < 0.3:
+                row["id"] = rng.choice([1, -1, 999999])
+                kinds.add("row:id-already-set")
+            if rng.random() < 0.2:
+                row["quick_cues"]["cues"] = [hostile_cue(rng, kinds) or {"label": "", "off": GS.MINUS1, "color": [0, 0, 0, 0]} for _ in range(rng.choice([0, 3, 9, 20]))]
+            ntr += 1
+            ops.append({"op": "trk_add", "row": row, "bind": "t%d" % ntr})
+            ids_t.append("$t%d" % ntr)
+        elif r < 0.30:
+            col = rng.choice(c18.ALL_COLS)
+            tid = rng.choice(ids_t)
+            if rng.random() < 0.5:
+                ops.append({"op": "trk_get_col", "id": tid, "col": col})
+            else:
+                ops.append({"op": "trk_set_col", "id": tid, "col": col, "value": c18.col_value(rng, col, u, 0.3)})
+            kinds.add("table:accessor-on-any-id")
+        elif r < 0.36:
+            ops.append({"op": rng.choice(["trk_get", "trk_remove", "trk_exists"]), "id": rng.choice(ids_t)})
+        elif r < 0.42:
+            row = c18.gen_row(rng, u, 0.3)
+            row["id"] = rng.choice(ids_t)
+            ops.append({"op": "trk_update", "row": row})
+            kinds.add("table:update-any-id")
+        elif r < 0.58:
+            npl += 1
+            title = rng.choice([FO.hx("L%d" % npl), FO.hx("dup"), "", FO.hx("a;b"), FO.hx("x" * 300)])
+            if title in ("", FO.hx("a;b")):
+                kinds.add("name:invalid")
+            row = {"title": title, "parent_list_id": rng.choice(ids_p), "is_persisted": rng.random() < 0.7,
+                   "next_list_id": rng.choice(ids_p + [0, 0, 0]), "last_edit_time": rng.choice([0, 10 ** 18, -10 ** 18, 1600000000 * 10 ** 9]),
+                   "is_explicitly_exported": rng.random() < 0.5}
+            if rng.random() < 0.2:
+                row["id"] = rng.choice([1, 5, 999])
+            if row["parent_list_id"] not in (0,) or row["next_list_id"] != 0:
+                kinds.add("playlist:foreign-parent-or-successor")
+            ops.append({"op": "pl_add", "row": row, "bind": "p%d" % npl})
+            ids_p.append("$p%d" % npl)
+        elif r < 0.68:
+            row = {"id": rng.choice(ids_p), "title": rng.choice([FO.hx("renamed"), "", FO.hx("dup")]), "parent_list_id": rng.choice(ids_p),
+                   "is_persisted": rng.random() < 0.5, "next_list_id": rng.choice(ids_p), "last_edit_time": 0, "is_explicitly_exported": False}
+            ops.append({"op": "pl_update", "row": row})
+            kinds.add("playlist:update-with-arbitrary-links")
+        elif r < 0.74:
+            ops.append({"op": rng.choice(["pl_remove", "pl_get", "pl_child_ids", "pl_descendant_ids", "pl_exists"]), "id": rng.choice(ids_p)})
+        elif r < 0.86:
+            row = {"list_id": rng.choice(ids_p), "track_id": rng.choice(ids_t), "database_uuid": rng.choice(["$uuid", "", FO.hx("other")]),
+                   "next_entity_id": rng.choice([0, 0, 999, -1]), "membership_reference": rng.choice([0, -1, 2 ** 62])}
+            if rng.random() < 0.15:
+                row["id"] = 7
+            ops.append({"op": "pe_add_back", "row": row, "throw_if_duplicate": rng.random() < 0.3})
+            kinds.add("entity:any-list-any-track")
+        elif r < 0.92:
+            ops.append({"op": rng.choice(["pe_remove", "pe_get"]), "list": rng.choice(ids_p), "track": rng.choice(ids_t)})
+        elif r < 0.96:
+            ops.append({"op": rng.choice(["pe_clear", "pe_get_for_list", "pe_track_ids"]), "list": rng.choice(ids_p)})
+        else:
+            ops.append({"op": "table_observe"})
+    ops.append({"op": "table_observe"})
+    ops.append({"op": "observe_all", "snapshots": False})
+    ops.append({"op": "verify"})
+    return ops, kinds
+
+
 def judge_case(ctx, res):
     case = res.case
     schema = case["schema"]
@@ -325,6 +402,13 @@ def run(ctx):
         for k in range(per):
             ops, kinds, _ = gen_history(ctx.rng, schema, 25 + (k % 4) * 10)
             cases.append({"id": "h%d" % n, "schema": schema, "ops": ops, "_kinds": sorted(kinds)})
+            n += 1
+    from ..framework import V2_SCHEMAS
+    pert = 25 if ctx.tier == "quick" else 1500
+    for schema in V2_SCHEMAS:
+        for k in range(pert):
+            ops, kinds = gen_table_history(ctx.rng, schema, 30 + (k % 3) * 15)
+            cases.append({"id": "tb%d" % n, "schema": schema, "ops": ops, "_kinds": sorted(kinds), "_table": True})
             n += 1
     ctx.sample({"schema": cases[0]["schema"], "hostile_kinds": cases[0]["_kinds"], "n_ops": len(cases[0]["ops"])})
     ctx.assumptions += ["ASan+UBSan(float-cast-overflow, float-divide-by-zero)+_GLIBCXX_ASSERTIONS build; a single allocation above 128 MiB "
